@@ -41,8 +41,33 @@ def record(stage="collect"):
         shutil.rmtree(d, ignore_errors=True)
 
 
+def analyse_merge(events):
+    """merge stage: at every crash index, the data of a removed part must be durable in the merged file"""
+    removes = [i for i, (k, p, h) in enumerate(events) if k == "remove"]
+    merged_handles = sorted({h for k, p, h in events if k == "write" and p.endswith(".corrected_reads.bed") and "_chr" not in p})
+    if not removes or not merged_handles:
+        return "error", None, "no removal / merged write recorded"
+    h = merged_handles[0]
+    last_write = max(i for i, (k, p, hh) in enumerate(events) if k == "write" and hh == h)
+    dur = [i for i, (k, p, hh) in enumerate(events) if hh == h and k in ("flush", "close") and i > last_write]
+    durable_idx = dur[0] if dur else len(events) + 1
+    s = z3.Solver()
+    k = z3.Int("crash_after_event")
+    s.add(k >= 0, k <= len(events))
+    s.add(z3.Or(*[k > r for r in removes]))      # some part is already removed in FS(k)
+    s.add(k <= durable_idx)                      # ... while the merged data are still only in the user-space buffer
+    t0 = time.time()
+    r = s.check()
+    dt = time.time() - t0
+    if r == z3.sat:
+        return "sat", s.model()[k].as_long(), {"lock_event": removes[0], "first_removal": removes[0], "merged_durable_at": durable_idx, "solver_s": dt}
+    return str(r), None, {"lock_event": removes[0], "solver_s": dt}
+
+
 def analyse(events, stage="collect"):
     """z3 over the crash index: returns (verdict, k, detail)"""
+    if stage == "merge":
+        return analyse_merge(events)
     suffix = c07_driver.LOCKS[stage]
     lock = [i for i, (k, p, h) in enumerate(events) if k == "open" and p.endswith(suffix)]
     if not lock:
@@ -120,14 +145,15 @@ def lane(ctx):
                 break
             st["discharged"] += 1
     elif verdict == "sat":
-        known = "C07-save-file-closed-after-lock" if stage == "collect" else "C07-part-files-closed-after-processed-lock"
+        known = {"collect": "C07-save-file-closed-after-lock", "process": "C07-part-files-closed-after-processed-lock",
+                 "merge": "C07-merge-removes-parts-before-merged-file-is-durable"}[stage]
         if known in ctx["active"]:
             st["excluded"] = {known: 1}
             st["known_hits"] = {known: {"crash_after_event": k, "detail": detail}}
             # everything else: a crash strictly before the lock, or after the last close, resumes correctly (replayed for real)
             st["obligations"] = 3
             lock_ev = detail["lock_event"]
-            for kk, label in ((lock_ev, "crash just before the lock is created"), (len(events), "crash after the stage finished")):
+            for kk, label in ((lock_ev, "crash just before the lock is created / the first part is removed"), (len(events), "crash after the stage finished")):
                 bad, text = replay(kk, stage)
                 st["labels"][label + " resumes correctly"] = 1
                 if bad:
@@ -135,7 +161,9 @@ def lane(ctx):
                     break
                 st["discharged"] += 1
         else:
-            st["cex"] = {"label": "stage lock exists while a file read on --resume is not closed yet", "model": {"crash_after_event": k}, "detail": dict(detail, events=events)}
+            label = "a per-chromosome part is already removed while its content is not yet durable in the merged file" if stage == "merge" else \
+                "stage lock exists while a file read on --resume is not closed yet"
+            st["cex"] = {"label": label, "model": {"crash_after_event": k}, "detail": dict(detail, events=events)}
     else:
         st["error"] = "analysis failed: %s %s" % (verdict, detail)
     return st
@@ -148,14 +176,14 @@ def replay_custom(inst, case):
 
 def instances(tier, seed):
     out = []
-    for stage, fn_name in (("collect", "collect_reads_in_parallel"), ("process", "construct_models_in_parallel")):
+    for stage, fn_name in (("collect", "collect_reads_in_parallel"), ("process", "construct_models_in_parallel"), ("merge", "DatasetProcessor.merge_assignments")):
         def run(ctx, stage=stage):
             ctx = dict(ctx)
             ctx["tier"] = tier
             ctx["stage"] = stage
             return lane(ctx)
         out.append(Instance("%s_stage_crash_points" % stage, run=run, kind="z3-trace", meta={"stage": stage},
-                            funcs=["src.dataset_processor:" + fn_name, "src.assignment_io:TmpFileAssignmentPrinter.__del__",
+                            funcs=["src.dataset_processor:" + fn_name, "src.file_utils:merge_files", "src.assignment_io:TmpFileAssignmentPrinter.__del__",
                                    "src.assignment_io:AbstractAssignmentPrinter.__del__", "src.assignment_io:BEDPrinter.add_read_info",
                                    "src.stats:EnumStats.dump", "src.dataset_processor:BasicReadAssignmentLoader.get_next"],
                             bounds="every crash index over the recorded file-system events of one chromosome's %s stage" % stage, weight=10))
